@@ -147,6 +147,11 @@ def cases(shard, nshards, seed, tier):
     name, n, pairs = gen2d.thousand_stems()
     if mine():
         yield {"family": "hostile", "name": name, "n": n, "pairs": pairs}
+    # hundreds of stems that DO cross (250, 300 and - thorough - 600 pseudoknots in a row, first-come-first-served not optimal)
+    for units in (250, 300) + ((600,) if tier != "quick" else ()):
+        name, n, pairs = gen2d.many_small_knots(units)
+        if mine():
+            yield {"family": "hostile", "name": name, "n": n, "pairs": pairs}
     # isolated pairs that shape the level assignment: a 2-bp stem crossed by four single pairs; a 3-bp and a 2-bp
     # stem crossing each other with single pairs tipping the balance
     for nm, n_, pr in (("stem2-crossed-by-4-singles", 22, [(1, 14), (3, 16), (5, 18), (7, 20), (9, 13), (10, 12)][:4] + [(9, 22), (10, 21)]),
